@@ -11,6 +11,7 @@ mod c03;
 mod c08;
 mod c15;
 mod c16;
+mod c18;
 
 fn main() {
     // panics of the code under test are data, not noise
@@ -28,6 +29,8 @@ fn main() {
         "c03-tok" => c03::tok(rest),
         "c03-gen" => c03::corpus(rest),
         "c03-prod" => c03::prod(rest),
+        "c18-replay" => c18::replay(rest),
+        "c18-parse" => c18::parse(rest),
         "c16-queue" => c16::queue(rest),
         "c15-replay" => c15::replay(rest),
         "c08-replay" => c08::replay(),
